@@ -40,7 +40,7 @@ CHECKS = {
     'C06': dict(
         technique='property-based round trip: parse generated text, str(), parse again with the entry point of that level; equality, hash and second-print oracle; run-wide injectivity map',
         level='bounded exploration: thousands of parser-produced ASTs per run over all node kinds, with time bounds from the whole double range in both units; every AST must print to text that parses to an equal, hash-equal AST that prints identically, and unequal ASTs must never share a printed form',
-        note='only ASTs produced by the parser are in scope (as the property states); texts the parser rejects are counted and skipped; known finding F23 is listed in known_findings.json',
+        note='only ASTs produced by the parser are in scope (as the property states); texts the parser rejects are counted and skipped; known findings F23 and F24 are listed in known_findings.json',
         ref='DESIGN.md section 4, C06',
     ),
     'C07': dict(
@@ -154,7 +154,7 @@ _MORE = {
     'C01': ' An integer numeral must denote an int and a decimal numeral a float.',
     'C02': ' A derived sub-check takes a parsed (checked) property, renames references or binders through replace_var_reference() / but() on its own event objects and compares the verdict with the scoping oracle of the derived model; a deterministic duplicate-channel table covers widths 2-4, every pair, every position and eight nesting shapes.',
     'C04': ' A third of the predicates are preceded, in the same process, by ill-typed relatives (of the same and of another predicate over the same field names) that must not disturb their acceptance.',
-    'C06': ' A quarter of the cases are followed by their relatives (equal numbers respelled, aliases renamed, other annotations). Known finding F23 (own alias as a bare message value has no printed form) is probed by a labelled family.',
+    'C06': ' A quarter of the cases are followed by their relatives (equal numbers respelled, aliases renamed, other annotations). Known finding F23 (own alias as a bare message value has no printed form) and F24 (a field named like a constant or prefix keyword read through the own alias prints as that word) are probed by labelled families.',
     'C07': ' A sample of texts with two faults of different kinds is also parsed in a brand-new interpreter and the outcome class compared with this process (process-level history); character-level edits of valid texts reach every parser state.',
     'C10': ' Copies made by the library after a warm round of calls (alias renamed, current message turned into a variable) are refactored and judged by the same oracle.',
     'C13': ' Substitution slot table (single mention in 16 slot kinds, two roots, both directions); merge-and-undo sequence with an alias that already occurs.',
